@@ -902,6 +902,168 @@ fn mode_shrinker(seed: u64, limit: usize) -> Vec<serde_json::Value> {
     fails
 }
 
+
+// ------------------------------------------------------------------ mode: interner (C11): CodeGenInterner keeps binding structure, never captures a free variable
+/// name a de Bruijn term: binder number k (pre-order) gets text/unique from `scheme`, a free variable gets `free_unique`
+fn to_named(t: &T, binders: &mut Vec<(String, isize)>, counter: &mut isize, scheme: u8, free_unique: isize) -> Term<Name> {
+    use uplc::ast::Unique;
+    let nm = |text: &str, u: isize| Rc::new(Name { text: text.to_string(), unique: Unique::new(u) });
+    match t {
+        T::Var(i) => {
+            if *i >= 1 && *i <= binders.len() {
+                let (tx, u) = binders[binders.len() - *i].clone();
+                Term::Var(nm(&tx, u))
+            } else {
+                Term::Var(nm("free", free_unique))
+            }
+        }
+        T::Lam(b) => {
+            let k = *counter;
+            *counter += 1;
+            // scheme 0: every binder is ("x", 0) (what builder-made terms look like); 1: distinct texts, unique 0;
+            // 2: same text, distinct uniques counting DOWN from 50 (so they differ from the fresh numbering); 3: ("x", k)
+            let (tx, u) = match scheme { 0 => ("x".to_string(), 0), 1 => (format!("v{k}"), 0), 2 => ("x".to_string(), 50 - k), _ => ("x".to_string(), k) };
+            binders.push((tx.clone(), u));
+            let body = to_named(b, binders, counter, scheme, free_unique);
+            binders.pop();
+            Term::Lambda { parameter_name: nm(&tx, u), body: Rc::new(body) }
+        }
+        T::App(f, a) => Term::Apply { function: Rc::new(to_named(f, binders, counter, scheme, free_unique)), argument: Rc::new(to_named(a, binders, counter, scheme, free_unique)) },
+        T::Delay(b) => Term::Delay(Rc::new(to_named(b, binders, counter, scheme, free_unique))),
+        T::Force(b) => Term::Force(Rc::new(to_named(b, binders, counter, scheme, free_unique))),
+        T::Con(k) => Term::Constant(Rc::new(k_to_constant(k))),
+        T::Error => Term::Error,
+        T::Builtin(b) => Term::Builtin(b_to_fun(*b)),
+        T::Constr(tag, fs) => Term::Constr { tag: *tag, fields: fs.iter().map(|f| to_named(f, binders, counter, scheme, free_unique)).collect() },
+        T::Case(sc, bs) => Term::Case { constr: Rc::new(to_named(sc, binders, counter, scheme, free_unique)), branches: bs.iter().map(|f| to_named(f, binders, counter, scheme, free_unique)).collect() },
+    }
+}
+/// shadowing-aware expectation: with scheme 0/2/3 every binder has the same text, so a variable (named after its binder)
+/// refers to ... its own binder only if no nearer binder carries the same (text, unique) pair
+fn expected_after_interning(t: &T, scheme: u8) -> bool {
+    // the named term denotes `t` itself iff no variable is captured by a nearer binder with an identical name
+    fn ok(t: &T, binders: &mut Vec<isize>, counter: &mut isize, scheme: u8) -> bool {
+        match t {
+            T::Var(i) => {
+                if *i >= 1 && *i <= binders.len() {
+                    let me = binders[binders.len() - *i];
+                    // nearer binders with the same identity capture the variable
+                    !binders[binders.len() - *i + 1..].iter().any(|b| *b == me)
+                } else { true }
+            }
+            T::Lam(b) => {
+                let k = *counter; *counter += 1;
+                let id = match scheme { 0 => 0, 1 => 1000 + k, 2 => 50 - k, _ => k };
+                binders.push(id); let r = ok(b, binders, counter, scheme); binders.pop(); r
+            }
+            T::App(f, a) => ok(f, binders, counter, scheme) && ok(a, binders, counter, scheme),
+            T::Delay(b) | T::Force(b) => ok(b, binders, counter, scheme),
+            T::Constr(_, fs) => fs.iter().all(|f| ok(f, binders, counter, scheme)),
+            T::Case(sc, bs) => ok(sc, binders, counter, scheme) && bs.iter().all(|f| ok(f, binders, counter, scheme)),
+            _ => true,
+        }
+    }
+    ok(t, &mut vec![], &mut 0, scheme)
+}
+fn check_interner(t: &T, scheme: u8, free_unique: isize) -> Option<serde_json::Value> {
+    use uplc::optimize::interner::CodeGenInterner;
+    if !expected_after_interning(t, scheme) {
+        return None; // the named input itself does not denote t (a nearer identical binder captures): not a case of the property
+    }
+    let named = to_named(t, &mut vec![], &mut 0, scheme, free_unique);
+    let input = serde_json::json!({"term": to_real_db(t).to_pretty().split_whitespace().collect::<Vec<_>>().join(" "), "naming_scheme": scheme, "free_unique": free_unique});
+    let r = std::panic::catch_unwind(std::panic::AssertUnwindSafe(|| {
+        let mut prog = Program { version: (1, 1, 0), term: named };
+        CodeGenInterner::new().program(&mut prog);
+        let db: Result<Program<DeBruijn>, _> = prog.try_into();
+        db.ok()
+    }));
+    let closed = well_scoped(t, 0);
+    match r {
+        Err(_) => Some(fail("interner", "interning / conversion panicked", input, "no panic".into(), "panic".into())),
+        Ok(None) => if closed { Some(fail("interner", "closed program rejected after interning", input, "converted".into(), "error".into())) } else { None },
+        Ok(Some(db)) => {
+            if !closed {
+                Some(fail("interner", "free variable silently bound to a binder after interning", input, "FreeUnique error".into(), db.to_pretty()))
+            } else if strip(&db.term) != strip(&to_real_db(t)) {
+                Some(fail("interner", "interning changed which binder a variable refers to", input, to_real_db(t).to_pretty(), db.to_pretty()))
+            } else { None }
+        }
+    }
+}
+fn mode_interner(seed: u64, limit: usize) -> Vec<serde_json::Value> {
+    let mut fails = vec![];
+    let mut memo = std::collections::HashMap::new();
+    let mut n = 0;
+    'outer: for size in 1..=5 {
+        let ts = terms(size, 0, true, &mut memo);
+        for t in ts.iter() {
+            for scheme in 0..4u8 {
+                for fu in [0isize, 1, 2] {
+                    n += 1;
+                    if let Some(f) = check_interner(t, scheme, fu) {
+                        fails.push(f);
+                        if fails.len() >= limit { break 'outer; }
+                    }
+                }
+            }
+        }
+    }
+    let mut rng = Rng(0xDB4F0B9175AE2165 ^ seed.wrapping_mul(0x9FB21C651E98DF25) | 1);
+    let mut m = 0;
+    while fails.len() < limit && m < 20_000 {
+        m += 1;
+        let size = 4 + rng.below(18) as usize;
+        let open = rng.below(2) == 0;
+        let t = random_term(&mut rng, size, 0, open);
+        let sch = rng.below(4) as u8;
+        let fu = rng.below(6) as isize;
+        if let Some(f) = check_interner(&t, sch, fu) { fails.push(f); }
+    }
+    println!("BOUNDS mode=interner exhaustive: open and closed terms of size<=5 x 4 naming schemes (all binders (x,0); distinct texts; same text distinct uniques; (x,k)) x free-variable uniques 0,1,2 ({n} cases); random: {m}; seed {seed}");
+    fails
+}
+
+// ------------------------------------------------------------------ mode: datacodec (C04/C08): integers through Data and CBOR
+fn mode_datacodec(_seed: u64, limit: usize) -> Vec<serde_json::Value> {
+    use uplc::ast::Data;
+    use DefaultFunction as F;
+    let mut fails = vec![];
+    let sem = BuiltinSemantics::E;
+    let mut n = 0;
+    for i in ints() {
+        if fails.len() >= limit { break; }
+        n += 1;
+        let txt = format!("{i}");
+        // unIData (iData n) == n
+        let d = match call_builtin(F::IData, sem, &[Value::integer(i.clone())]) { Ok(Ok(v)) => v, other => { fails.push(fail("datacodec", "iData failed", serde_json::json!({"n": txt}), "a data value".into(), format!("{other:?}"))); continue } };
+        expect_builtin(&mut fails, F::UnIData, sem, &[d.clone()], format!("iData {txt}"), Some(Value::integer(i.clone())));
+        // serialiseData (iData n) is the canonical CBOR integer: major type 0/1 up to 64 bits of magnitude, bignum tag 2/3 beyond
+        let want: Vec<u8> = {
+            let neg = i < BigInt::from(0);
+            let mag: BigInt = if neg { -i.clone() - 1 } else { i.clone() };
+            let major: u8 = if neg { 0x20 } else { 0x00 };
+            if mag < (BigInt::from(1) << 64u32) {
+                let m = u64::try_from(&mag).unwrap();
+                if m < 24 { vec![major | m as u8] } else if m < 256 { vec![major | 24, m as u8] } else if m < 65536 { let mut v = vec![major | 25]; v.extend((m as u16).to_be_bytes()); v }
+                else if m < (1u64 << 32) { let mut v = vec![major | 26]; v.extend((m as u32).to_be_bytes()); v } else { let mut v = vec![major | 27]; v.extend(m.to_be_bytes()); v }
+            } else {
+                let (_, bytes) = mag.to_bytes_be();
+                let mut v = vec![if neg { 0xc3 } else { 0xc2 }];
+                let l = bytes.len();
+                if l < 24 { v.push(0x40 | l as u8) } else if l < 256 { v.push(0x58); v.push(l as u8) } else { v.push(0x59); v.extend((l as u16).to_be_bytes()) }
+                v.extend(bytes);
+                v
+            }
+        };
+        expect_builtin(&mut fails, F::SerialiseData, sem, &[d.clone()], format!("iData {txt}"), Some(Value::byte_string(want)));
+        // equalsData is reflexive on the re-built value and agrees with Data::integer
+        expect_builtin(&mut fails, F::EqualsData, sem, &[d.clone(), Value::data(Data::integer(i.clone()))], format!("iData {txt}, Data::integer {txt}"), Some(Value::bool(true)));
+    }
+    println!("BOUNDS mode=datacodec {n} boundary integers (|n| up to 2^200): unIData.iData, serialiseData.iData against the canonical CBOR integer encoding, equalsData");
+    fails
+}
+
 // ------------------------------------------------------------------ mode: nopanic (C10)
 fn mode_nopanic(seed: u64, limit: usize) -> Vec<serde_json::Value> {
     let mut fails = vec![];
@@ -1102,6 +1264,8 @@ fn main() {
             "builtins" => mode_builtins(seed, limit),
             "nopanic" => mode_nopanic(seed, limit),
             "flat" => mode_flat(seed, limit),
+            "interner" => mode_interner(seed, limit),
+            "datacodec" => mode_datacodec(seed, limit),
             "shrinker" => mode_shrinker(seed, limit),
             "allbuiltins" => mode_allbuiltins(seed, limit),
             // the builtin grid, keeping only crashes (for the never-crash property a wrong value is not a violation)
